@@ -148,6 +148,14 @@ Proof.
   intros Hin. destruct (accepted_acc_all es _ H1 Hrest t Hin) as [_ Hn]. apply Hn. now destruct (H4 t eq_refl).
 Qed.
 
+(* the reassembly assertion is unreachable for DATA and FORWARD-TSN events alike *)
+Theorem no_assert_all : forall es s, invb s -> Forall ev_in es -> Forall (fun o => o <> OutAssert) (snd (rrun s es)).
+Proof.
+  induction es as [|e es IH]; intros s Hinv Hes; [constructor|].
+  rewrite rrun_cons. cbn [snd]. inversion Hes as [|? ? He Hrest]; subst.
+  destruct (rstep_inv s e Hinv He) as (H1 & H2 & _ & _). constructor; [exact H2|now apply IH].
+Qed.
+
 (* ---- the whole run, instrumented *)
 Definition stepD (s : rstate) (e : revent) : list (list chunk) * list chunk :=
   match e with EvData c => (dataD s c, []) | EvFwd cum strs => fwdD s cum strs end.
